@@ -139,7 +139,7 @@ func cmdCheck(args []string) int {
 		}
 	}
 	genSecs := time.Since(t0).Seconds() - loadSecs
-	work := filepath.Join(verifDir, "work", *prop)
+	work := filepath.Join(outDir(), "work", *prop)
 	os.RemoveAll(work)
 	discharge(all, work, *tier, 16)
 	// obligations no solver decided within the quick budget get one retry with a larger one before
@@ -322,9 +322,9 @@ func cmdCheck(args []string) int {
 			"extraction":               "SSA built by x/tools from /repo's working tree on this run (tags: verif); nothing hand-transcribed",
 		},
 	}
-	os.MkdirAll(filepath.Join(verifDir, "evidence"), 0o755)
+	os.MkdirAll(filepath.Join(outDir(), "evidence"), 0o755)
 	b, _ := json.MarshalIndent(ev, "", " ")
-	os.WriteFile(filepath.Join(verifDir, "evidence", *prop+".json"), b, 0o644)
+	os.WriteFile(filepath.Join(outDir(), "evidence", *prop+".json"), b, 0o644)
 	for _, l := range knownLines {
 		fmt.Println(l)
 	}
@@ -351,7 +351,7 @@ func cmdCheck(args []string) int {
 func round2(f float64) float64 { return float64(int(f*100+0.5)) / 100 }
 
 func writeReplay(prop, name string, v violation) string {
-	dir := filepath.Join(verifDir, "replays")
+	dir := filepath.Join(outDir(), "replays")
 	os.MkdirAll(dir, 0o755)
 	path := filepath.Join(dir, prop+"-"+safeName(name)+".json")
 	m := map[string]any{"property": prop, "failed_obligation": v.Obligation, "kind": v.Kind, "clause": v.Clause, "status": v.Status, "reason": v.Reason, "position": v.Pos, "path": v.Path, "solver_output": v.Solvers, "model": v.Model, "confirmed_on_real_code": v.Confirmed, "replay": v.Replay}
@@ -368,4 +368,12 @@ func unsatReturns(aggs []*Agg, fn string) int {
 		}
 	}
 	return n
+}
+
+// outDir: where work files, evidence and replays go (EVYVC_OUT redirects them, used by the seeded-change runner).
+func outDir() string {
+	if d := os.Getenv("EVYVC_OUT"); d != "" {
+		return d
+	}
+	return verifDir
 }
